@@ -531,6 +531,10 @@ func sameValue(value1 *ast.Value, value2 *ast.Value) bool {
 }
 
 func doTypesConflict(walker *Walker, type1 *ast.Type, type2 *ast.Type) bool {
+	// nullability has to agree at every level, for list types as well as for named types
+	if type1.NonNull != type2.NonNull {
+		return true
+	}
 	if type1.Elem != nil {
 		if type2.Elem != nil {
 			return doTypesConflict(walker, type1.Elem, type2.Elem)
@@ -540,13 +544,6 @@ func doTypesConflict(walker *Walker, type1 *ast.Type, type2 *ast.Type) bool {
 	if type2.Elem != nil {
 		return true
 	}
-	if type1.NonNull && !type2.NonNull {
-		return true
-	}
-	if !type1.NonNull && type2.NonNull {
-		return true
-	}
-
 	t1 := walker.Schema.Types[type1.NamedType]
 	t2 := walker.Schema.Types[type2.NamedType]
 	// a leaf type conflicts with every other type, leaf or composite
